@@ -74,7 +74,7 @@ prop("C19",
 
 prop("C16",
      [r_wrf.rule_frame, r_wrf.rule_standardize, r_wrf.rule_refresh, r_wrf.rule_determinism, r_wl.rule_measure, r_wl.rule_copy_vers,
-      r_wrf.rule_snapshot, r_lp.rule_write_no_state],
+      r_wrf.rule_snapshot, r_lp.rule_write_no_state, r_wrf.rule_frame_replace],
      "Frame condition by may-write effect summaries: the set of locations writer.write / LASFile.write may modify "
      "through the LASFile (access paths with aliasing through loop variables and properties, propagated over the "
      "resolved call graph; SectionItems/HeaderItem hooks by contract) is a subset of the documented side effects - "
@@ -98,7 +98,7 @@ prop("C16",
                 "byte-level determinism and numeric truth are not decided.")
 
 prop("C15",
-     [r_si.rule_accessors, r_si.rule_compare, r_si.rule_get_pure, r_si.rule_setvalue_only],
+     [r_si.rule_accessors, r_si.rule_compare, r_si.rule_get_pure, r_si.rule_setvalue_only, r_si.rule_read_pure],
      "Sibling cross-check of the SectionItems accessors: __contains__, __getitem__, __delitem__ and set_item relate "
      "the key to an item only through self.mnemonic_compare(key, item.mnemonic) (census of every comparison that "
      "mentions the key and an element), in a single front-to-back loop over self that leaves at the first match and "
@@ -117,7 +117,7 @@ prop("C15",
 
 prop("C13",
      [r_si.rule_suffix_after_insert, r_si.rule_suffix_algo, r_si.rule_session_only, r_si.rule_unknown, r_si.rule_compare,
-      r_si.rule_pk_state, r_wl.rule_orig_mnem, r_wl.rule_hdr_post],
+      r_si.rule_pk_state, r_wl.rule_orig_mnem, r_wl.rule_hdr_post, r_si.rule_list_primitives],
      "Pairing rule on CFG paths: in every SectionItems method each placement of an item through list.append/insert/"
      "__setitem__/extend is followed on every path to a normal return by assign_duplicate_suffixes, called "
      "unconditionally with the new item's useful_mnemonic; LASFile.set_data re-assigns all suffixes after renaming "
@@ -150,7 +150,8 @@ prop("C17",
                 "objects is not executed.")
 
 prop("C08",
-     [r_num.rule_numlit, r_num.rule_finite_default, r_num.rule_exempt, r_num.rule_curve_raw, r_wl.rule_ord_bijection],
+     [r_num.rule_numlit, r_num.rule_finite_default, r_num.rule_exempt, r_num.rule_curve_raw, r_wl.rule_ord_bijection,
+      r_num.rule_read_no_rewrite, r_sec.rule_route],
      "Guard-language analysis: every text->number constructor in SectionParser.num (int/float/np.int64/np.float64 on "
      "the argument) is reachable, from the entry or from any later re-definition of the value, only across the edge of "
      "a test on which `<regex>.fullmatch(value)` succeeded (truth table of the test over match/is-str atoms; CFG with "
@@ -217,7 +218,7 @@ prop("C06",
 prop("C07",
      [r_data.rule_wrap_count, r_data.rule_tokenizer, r_sec.rule_line_normalise, r_data.rule_counter, r_data.rule_reshape,
       r_data.rule_split, r_sec.rule_reseek, r_sec.rule_end_test, r_si.rule_compare, r_sec.rule_content_only_effects,
-      r_data.rule_orient, r_sec.rule_case, r_sec.rule_steer],
+      r_data.rule_orient, r_sec.rule_case, r_sec.rule_steer, r_data.rule_engine_select],
      "Column binding analysis: under the assumption WRAP == YES with declared curves, an explicit-state search of "
      "LASFile.read shows that the n_columns argument of the reference engine is never the per-line count sniffed by "
      "inspect_data_section, and all tests on the WRAP value fold to the same predicate over 9 probe values "
@@ -239,7 +240,7 @@ prop("C01",
      [r_data.rule_wrap_count, r_data.rule_wrap_tokens, r_data.rule_null_write, r_data.rule_null_guard, r_data.rule_reshape,
       r_data.rule_counter, r_data.rule_null_flat, r_data.rule_read_subs, r_si.rule_compare, r_num.rule_numlit,
       r_data.rule_data_format, r_data.rule_wrap_consistent, r_wl.rule_ord_table, r_wl.rule_key_norm, r_sec.rule_section_type,
-      r_lp.rule_write_no_state],
+      r_lp.rule_write_no_state, r_data.rule_options_readonly],
      "Write->read pairing clauses: lasio's own wrapped output is re-read with the declared curve count, never the sniffed "
      "per-line count (DATA.WRAP-COUNT, explicit-state search under WRAP == YES); the writer's TextWrapper has "
      "width=data_width, break_long_words=False, break_on_hyphens=False, so lines break only at the blanks between values "
@@ -255,7 +256,7 @@ prop("C01",
 prop("C09",
      [r_data.rule_tokenizer, r_data.rule_trim, r_sec.rule_title_pred, r_sec.rule_end_test, r_sec.rule_line_normalise,
       r_sec.rule_reseek, r_data.rule_wrap_count, r_sec.rule_convention, r_data.rule_orient, r_sec.rule_content_only_effects,
-      r_data.rule_read_subs, r_gr.rule_grammar],
+      r_data.rule_read_subs, r_gr.rule_grammar, r_data.rule_engine_select],
      "Presentation-invariance clauses: the sniffer tokenises with the reader's DLM splitter (DATA.TOKENIZER); every "
      "splitter of the factory yields whitespace-free tokens - decided on the regex AST as a character set, or by strip() "
      "of each field - and comma splitting is positional (DATA.TRIM, DATA.SPLIT; COMMA and TAB trimming are recorded known "
@@ -337,7 +338,7 @@ prop("C12",
      [r_wl.rule_ord_table, r_wl.rule_ord_bijection, r_wl.rule_key_norm, r_wl.rule_order_key, r_wl.rule_copy_vers,
       r_wl.rule_measure, r_wl.rule_template, r_num.rule_curve_raw, r_hdrt.rule_steer_lookup,
       r_data.rule_wrap_consistent, r_data.rule_wrap_tokens, r_data.rule_orient, r_data.rule_reshape, r_data.rule_wrap_count,
-      r_lp.rule_write_no_state, r_si.rule_pk_rebuild],
+      r_lp.rule_write_no_state, r_si.rule_pk_rebuild, r_data.rule_options_readonly],
      "Order-table agreement: the folded defaults.ORDER_DEFINITIONS has every version the writer admits, all four "
      "sections per version, well-formed (order, mnemonics) exceptions, 1.x ~Well = descr:value except STRT/STOP/STEP/NULL "
      "and 2.x/3.0 = value:descr throughout; reader (SectionParser.__init__) and writer (get_section_order_function) "
@@ -356,7 +357,7 @@ prop("C11",
      [r_wl.rule_template, r_wl.rule_measure, r_wl.rule_order_key, r_wl.rule_orig_mnem, r_si.rule_session_only,
       r_si.rule_pk_state, r_wrf.rule_refresh, r_wrf.rule_standardize, r_gr.rule_grammar, r_gr.rule_strip, r_wl.rule_key_norm,
       r_wl.rule_ord_bijection, r_data.rule_wrap_count, r_data.rule_wrap_tokens, r_data.rule_data_format, r_data.rule_wrap_consistent,
-      r_lp.rule_write_no_state, r_si.rule_pk_rebuild],
+      r_lp.rule_write_no_state, r_si.rule_pk_rebuild, r_si.rule_pk_list_restore, r_num.rule_numlit, r_wl.rule_hdr_post],
      "Necessary conditions of the read->write fixed point only: the writer's template puts '.' directly before the unit "
      "and ' : ' before the tail, which the reader's structurally decided grammar splits back (WR.TEMPLATE, HDR.GRAMMAR) - "
      "no fields migrating between unit, value and description requires also that widths are measured on final values and "
@@ -379,7 +380,7 @@ def _to_csv_typestate(ctx):
 prop("C14",
      [r_lp.rule_views, r_lp.rule_route, r_lp.rule_rank, r_lp.rule_no_inplace, r_lp.rule_pu_fresh, r_si.rule_suffix_after_insert,
       r_si.rule_session_only, r_si.rule_compare, r_si.rule_accessors, r_lp.rule_no_alias_repeat, r_lp.rule_sentinel,
-      r_lp.rule_rename_reset],
+      r_lp.rule_rename_reset, r_si.rule_read_pure, r_si.rule_suffix_algo],
      "List-model clauses: every view (keys, values, items, __getitem__, data, index, curvesdict, get_curve, df, "
      "stack_curves) reads curve state through self.curves only, and no LASFile attribute other than `sections` is ever "
      "assigned from curve data (attribute-store census with provenance; LF.VIEWS); the ten curve mutators change the list "
@@ -396,7 +397,8 @@ prop("C14",
      level_text="Static guarantee of the structural clauses of the list model; equivalence with a model under edit histories is not executed.")
 
 prop("C10",
-     [r_lp.rule_pu_global, r_lp.rule_pu_fresh, r_lp.rule_pu_channel, r_lp.rule_pu_table_alias, r_lp.rule_pu_rewind, r_hdrt.rule_no_state],
+     [r_lp.rule_pu_global, r_lp.rule_pu_fresh, r_lp.rule_pu_channel, r_lp.rule_pu_table_alias, r_lp.rule_pu_rewind, r_hdrt.rule_no_state,
+      r_lp.rule_pu_cookie, r_lp.rule_pu_channel_table],
      "Purity by effect summaries: none of the functions reachable from LASFile.__init__/read (resolved call graph incl. "
      "property/__setattr__ hooks; closure size recorded) writes a module-level object, a class attribute or a mutable "
      "default argument - an embedded impure function must be flagged on every run as positive control (PU.GLOBAL); "
